@@ -176,7 +176,8 @@ class MemPrims:
             r = self.list_mode(I, path, frame, t, name, short, args, seq)
             if r is not None:
                 return r
-        if short == "find" and "Iterator" in (t["f"].get("def") or name) and len(args) == 2:
+        if short == "find" and "Iterator" in (t["f"].get("def") or name) and len(args) == 2 and \
+                "MemoryArea" in " ".join(t["f"].get("gargs", [])):
             return self.find(I, path, frame, t, args)
         if short in ("position", "rposition") and "Iterator" in (t["f"].get("def") or name) and len(args) == 2 and \
                 "MemoryArea" in " ".join(t["f"].get("gargs", [])):
